@@ -11,7 +11,7 @@ import (
 
 func init() { scenarios["C04"] = c04 }
 
-const c4limit = 16401           // MsgOnWireSizeLimit both endpoints configure (checked against the source by obfs.maxunit / Gen)
+const c4limit = 16401 // MsgOnWireSizeLimit both endpoints configure (checked against the source by obfs.maxunit / Gen)
 const c4maxPayload = 16401 - 14 - 255
 
 type c4case struct {
